@@ -307,7 +307,7 @@ def generate(repo, gen_dir):
            "   actix-web/src/{scope,app,config,resource,route,service,request,app_service}.rs:",
            "   the routing statements in source order, each with its enclosing `for` (iteration direction,",
            "   iterated expression) / `if` / `else` headers.  Tied to Router/RouteTree.v by Router/RouteTie.v. *)",
-           "From Coq Require Import List String NArith.", "Import ListNotations.", "Open Scope string_scope.", "",
+           "From Coq Require Import List String NArith.", "Import ListNotations.", "Local Open Scope string_scope.", "",
            "Inductive rt_dir := Fwd | Rev.",
            "Inductive rt_ctx := CFor (d : rt_dir) (what : string) | CIf (cond : string) | CElse (cond : string).",
            "Inductive rt_stmt :=", "| " + "\n| ".join(ALL_CONSTRUCTORS) + ".", ""]
